@@ -62,9 +62,7 @@ def gen_spec(rng, vals):
         return 'shift-and-scale', {'scale': k}, f'shift:nan:{common.frac(k)}'
     if mode == 'minmax':
         mr = rng.choice([0, 1, 1000, 5000, 1e-6])
-        finite = [x for x in vals if not math.isnan(x)]
-        if finite and max(max(finite) - min(finite), mr) < 1e-6:
-            mr = 1000
+        # a null range (identical values, no minimum range) is part of the domain since F6 was repaired: everything maps onto 0
         return 'minmax-scale', {'min_range': mr}, f'minmax:{common.frac(mr)}'
     if mode == 'step':
         n = rng.choice([0, 1, 2, 3, 4])
